@@ -63,7 +63,7 @@ Section Thm.
     || (negb (o_cli o) && forallb (fun o' => is_ignored o' || negb (typed o') || negb (String.eqb (o_var o') (o_var o))) T).
 
   Definition checker (P : prog) : bool :=
-    nodupb (map o_name T) && sorted_names T &&
+    nodupb (map o_name T) && sorted_names T && p_nopos P &&
     match prog_shape P with
     | Some al =>
       nodupb (map fst al ++ map snd al) && forallb alias_ok al
@@ -351,7 +351,7 @@ Section Thm.
       /\ (forall ac, In ac al -> alias_ok ac = true) /\ (forall o, In o T -> canon_ok al o = true)
       /\ (forall o, In o T -> ignored_ok o = true).
   Proof.
-    unfold checker. intro H. apply andb_prop in H as [H0 H]. apply andb_prop in H0 as [H0 _].
+    unfold checker. intro H. apply andb_prop in H as [H0 H]. apply andb_prop in H0 as [H0 _]. apply andb_prop in H0 as [H0 _].
     destruct (prog_shape P) as [al|]; [|discriminate]. exists al.
     repeat (apply andb_prop in H as [H ?]).
     repeat split; try (apply nodupb_NoDup; assumption).
@@ -359,6 +359,36 @@ Section Thm.
     - intros o I. rewrite forallb_forall in *. auto.
     - intros o I. rewrite forallb_forall in *. auto.
   Qed.
+
+  Lemma checker_nopos P : checker P = true -> p_nopos P = true.
+  Proof.
+    unfold checker. intro H. apply andb_prop in H as [H0 _]. now apply andb_prop in H0 as [_ H0].
+  Qed.
+
+  Lemma parse_unfold P cli fs dflt : checker P = true ->
+    parse T wf P cli fs dflt =
+    match resolve_all T cli with
+    | None => Fail
+    | Some items =>
+      match exec_list T wf items [] (p_cli P) st0 with
+      | None => Fail
+      | Some s1 =>
+        if existsb (fun f => match s_vm s1 f with Some _ => true | None => false end) (p_flags P) then Stop else
+        match cfg_source P s1 fs dflt with
+        | (FDevNull, _) => Run s1
+        | (FNoFile, true) => Stop
+        | (FNoFile, false) => Run s1
+        | (FFile citems, _) =>
+          if forallb (known_file T) citems then
+            match exec_list T wf items citems (p_cfg P) s1 with
+            | Some s2 => Run s2
+            | None => Fail
+            end
+          else Fail
+        end
+      end
+    end.
+  Proof. intro CK. unfold parse. now rewrite (words_nopos P cli (checker_nopos P CK)). Qed.
 
   Lemma source_eq P items vmA fs dflt :
     store_items T wf true (fun _ => false) items (fun _ => None) = Some vmA ->
@@ -381,7 +411,7 @@ Section Thm.
     intros CK H. destruct (checker_facts P CK) as (al & SH & ND & NDal & ALok & CANok & _).
     destruct (prog_shape_some _ _ SH) as [PC PF].
     unfold prog_aliases. rewrite PF.
-    unfold parse in H. destruct (resolve_all T cli) as [items|] eqn:RA; [|discriminate].
+    rewrite (parse_unfold P cli fs dflt CK) in H. destruct (resolve_all T cli) as [items|] eqn:RA; [|discriminate].
     exists items. split; [reflexivity|].
     pose proof (resolve_all_cli T cli items RA) as CLI.
     rewrite PC in H. cbn [exec_list exec st0 s_fin s_vm s_vars] in H.
@@ -408,7 +438,7 @@ Section Thm.
     intros CK H. destruct (checker_facts P CK) as (al & SH & ND & NDal & ALok & CANok & _).
     destruct (prog_shape_some _ _ SH) as [PC PF].
     unfold prog_aliases. rewrite PF.
-    unfold parse in H. destruct (resolve_all T cli) as [items|] eqn:RA; [|discriminate].
+    rewrite (parse_unfold P cli fs dflt CK) in H. destruct (resolve_all T cli) as [items|] eqn:RA; [|discriminate].
     exists items. split; [reflexivity|].
     pose proof (resolve_all_cli T cli items RA) as CLI.
     rewrite PC in H. cbn [exec_list exec st0 s_fin s_vm s_vars] in H.
@@ -433,8 +463,9 @@ Section Thm.
 
   (** * C20.2 errors stop the program *)
   Theorem unknown_cli_fails P cli fs dflt c t :
+    checker P = true ->
     In (c, t) cli -> resolve T c = None -> parse T wf P cli fs dflt = Fail.
-  Proof. intros HI R. unfold parse. now rewrite (resolve_all_unknown T cli c t HI R). Qed.
+  Proof. intros CK HI R. rewrite (parse_unfold P cli fs dflt CK). now rewrite (resolve_all_unknown T cli c t HI R). Qed.
 
   Theorem malformed_cli_fails P cli fs dflt items n toks o t :
     checker P = true -> resolve_all T cli = Some items ->
@@ -443,7 +474,7 @@ Section Thm.
   Proof.
     intros CK RA HI Fo To Ht Hw. destruct (checker_facts P CK) as (al & SH & _).
     destruct (prog_shape_some _ _ SH) as [PC PF].
-    unfold parse. rewrite RA, PC. cbn [exec_list exec st0 s_fin s_vm s_vars].
+    rewrite (parse_unfold P cli fs dflt CK). rewrite RA, PC. cbn [exec_list exec st0 s_fin s_vm s_vars].
     rewrite (store_items_malformed T wf true (fun _ => false) items (fun _ => None) n toks o t); auto.
     unfold typed in To. destruct (o_ty o); congruence.
   Qed.
@@ -455,7 +486,7 @@ Section Thm.
   Proof.
     intros CK RA Fo Ty. destruct (checker_facts P CK) as (al & SH & _).
     destruct (prog_shape_some _ _ SH) as [PC PF].
-    unfold parse. rewrite RA, PC. cbn [exec_list exec st0 s_fin s_vm s_vars].
+    rewrite (parse_unfold P cli fs dflt CK). rewrite RA, PC. cbn [exec_list exec st0 s_fin s_vm s_vars].
     now rewrite (store_items_repeated T wf true (fun _ => false) i1 i2 i3 (fun _ => None) n t1 t2 o).
   Qed.
 
@@ -472,7 +503,7 @@ Section Thm.
   Proof.
     intros CK RA SRC BAD s. destruct (checker_facts P CK) as (al & SH & _).
     destruct (prog_shape_some _ _ SH) as [PC PF].
-    unfold parse. rewrite RA, PC. cbn [exec_list exec st0 s_fin s_vm s_vars].
+    rewrite (parse_unfold P cli fs dflt CK). rewrite RA, PC. cbn [exec_list exec st0 s_fin s_vm s_vars].
     destruct (store_items T wf true (fun _ => false) items (fun _ => None)) as [vmA|] eqn:SA; [|discriminate].
     destruct (existsb _ (p_flags P)); [discriminate|].
     rewrite (source_eq P items vmA fs dflt SA), SRC.
@@ -495,7 +526,7 @@ Section Thm.
   Proof.
     intros CK RA CG FS. destruct (checker_facts P CK) as (al & SH & _).
     destruct (prog_shape_some _ _ SH) as [PC PF].
-    unfold parse. rewrite RA, PC. cbn [exec_list exec st0 s_fin s_vm s_vars].
+    rewrite (parse_unfold P cli fs dflt CK). rewrite RA, PC. cbn [exec_list exec st0 s_fin s_vm s_vars].
     destruct (store_items T wf true (fun _ => false) items (fun _ => None)) as [vmA|] eqn:SA; [|auto].
     destruct (existsb _ (p_flags P)); [auto|].
     rewrite (source_eq P items vmA fs dflt SA). unfold source. rewrite CG, FS. auto.
@@ -569,7 +600,7 @@ End Thm.
 Local Open Scope string_scope.
 Definition pinned_prog : prog := mkProg
   [StoreCli; Notify] ["help"; "copyright"; "version"; "buildinfo"] "config"
-  [StoreCfg; Notify; CopyIfPresent "SyncFreq" "SynchrotronFrequency"; Notify].
+  [StoreCfg; Notify; CopyIfPresent "SyncFreq" "SynchrotronFrequency"; Notify] false.
 Definition pinned_aliases : list (string * string) :=
   [("RFVoltage", "AcceleratingVoltage"); ("SyncFreq", "SynchrotronFrequency"); ("steps", "StepsPerTs")].
 Definition pinned_wrules : wrules := mkW
